@@ -64,7 +64,8 @@ class Machine(object):
             ["SHA1", [1 << 29, 3]], ["MD5", [(1 << 29) + 1]],
             # thorough only
             ["SHA512", [1 << 29, 1]], ["SHA384", [(1 << 29) + 128]], ["RIPEMD160", [1 << 29]], ["SHA256", [1 << 30, 1 << 29]], ["MD4", [1 << 29, 64]],
-            ["SHA224", [3, 1 << 29]]]
+            ["SHA224", [3, 1 << 29]],
+            ["BLAKE2s", [(1 << 32) + 64]], ["BLAKE2s", [1 << 31, 1 << 31, 100]]]      # 2^32 bytes: the 32-bit byte counter of BLAKE2s carries
     allow_huge = True          # C17 drives this machine under ASan with one child per allocation: no half-gigabyte messages there
 
     def gen(self, rng, tier, idx):
@@ -191,7 +192,7 @@ class Machine(object):
         ctx.state(("huge", fam, len(pieces)))
         total = sum(pieces)
         buf = F.huge_zeros(total)
-        h = F.mod(fam).new()
+        h = F.mod(fam).new(digest_bits=256) if fam.startswith("BLAKE2") else F.mod(fam).new()
         off = 0
         for n in pieces:
             ctx.step()
